@@ -576,6 +576,10 @@ def _interrupt_step(ev, metrics, s, stp, k, events, bump):
             sys.settrace(old)
     except _Interrupt:
         fired = True
+    except Exception:
+        # a diagnostic fault may follow another one (EVICT) on the same session: whatever the call does
+        # then is outside the property and decides nothing
+        fired = False
     if fired:
         bump('diag.INTERRUPT')
     events.append([k, stp['s'], 'INTERRUPT', fired])
